@@ -9,14 +9,17 @@ CONSTANTS Cat,        \* catalogue name (Monitor!CatIds)
           Rev, Mir,   \* behaviour switches (see Monitor!MkK)
           MaxTx,      \* transactions per block
           MaxLen,     \* blocks in the chain
-          Modes       \* subset of {"compact", "streamed"}
+          Modes,      \* subset of {"compact", "streamed"}
+          Late,       \* the channel is set up in the middle of a first, streamed, empty block
+          Stale       \* behaviour switch (see Monitor!MkKS)
 
 VARIABLES st, aborted, last
 
-K  == MkK(Cat, Variant, Rev, Mir)
+K  == MkKS(Cat, Variant, Rev, Mir, Stale)
+Floor == IF Late THEN 1 ELSE 0
 BL == Blocks(K, MaxTx)
 
-Init == /\ st = InitSt(K)
+Init == /\ st = IF Late THEN InitStLate(K, <<>>) ELSE InitSt(K)
         /\ aborted = FALSE
         /\ last = [op |-> "init"]
 
@@ -27,18 +30,18 @@ Do(req) == LET o == Step(K, st, req) IN
 
 DoConnect == /\ ~aborted /\ Len(st.chain) < MaxLen
              /\ \E m \in Modes : \E b \in BL : ValidOn(K, st.chain, b) /\ Do(ReqC(b, m))
-DoDisconnect == /\ ~aborted /\ Len(st.chain) > 0
+DoDisconnect == /\ ~aborted /\ Len(st.chain) > Floor
                 /\ \E m \in Modes : Do(ReqD(m))
 Next == DoConnect \/ DoDisconnect
 
 Spec == Init /\ [][Next]_<<st, aborted, last>>
-View == <<st, aborted>>
+View == <<[st EXCEPT !.s.sb = FALSE], aborted>>   \* (the readiness flag influences nothing)
 
-C14 == Inv_C14(K, st, aborted)
+C14 == Inv_C14L(K, st, aborted, Late)
 
 \* structural invariants of the view (extra, beyond the list)
 TypeOK == LET s == st.s IN
-  /\ s.h = Len(st.chain)
+  /\ s.h = Len(st.chain) - Floor
   /\ Len(s.cho) = Len(s.chs)
   /\ (s.ct = None) = (s.uch = -1)
   /\ s.csh # -1 => ClosingSwept(s)
